@@ -741,6 +741,13 @@ package framework
 //@     # that node books it under the status and GPU groups the task shows (job first, then node, then handlers)
 //@     invariant task.NodeName == hostname && nodeAgrees(s.ssn.ClusterInfo.Nodes[hostname], task)
 //@     decreases len(s.ssn.eventHandlers) - rangeindex
+//@   # proof steps (helper "stmt2"): the un-evict branch (the task still sits on the node, no update asked for, not a move to
+//@   # another shared GPU) ends in a `modifies *` call; the two branches are proved separately, so that each query sees one of
+//@   # them (without these hints [newEntriesOK] [noAllocateEntryAppended] [prefixKept] [opCellsKept] took 4-126 s depending on the seed)
+//@   hint [newEntriesOK-unevictBranch] (foundOnNode && !updateTaskIfExistsOnNode && !isSharedAndMoveToDifferentGPU) ==> forall j int :: old(len(s.operations)) <= j && j < len(s.operations) ==> okEntry(s.operations[j], j) && !isAllocateOp(s.operations[j])
+//@   hint [prefixKept-unevictBranch] (foundOnNode && !updateTaskIfExistsOnNode && !isSharedAndMoveToDifferentGPU) ==> forall j int :: 0 <= j && j < old(len(s.operations)) ==> s.operations[j] == old(s.operations[j])
+//@   hint [newEntriesOK-pipelineBranch] !(foundOnNode && !updateTaskIfExistsOnNode && !isSharedAndMoveToDifferentGPU) ==> forall j int :: old(len(s.operations)) <= j && j < len(s.operations) ==> okEntry(s.operations[j], j) && !isAllocateOp(s.operations[j])
+//@   hint [prefixKept-pipelineBranch] !(foundOnNode && !updateTaskIfExistsOnNode && !isSharedAndMoveToDifferentGPU) ==> forall j int :: 0 <= j && j < old(len(s.operations)) ==> s.operations[j] == old(s.operations[j])
 //@   # C14 / C02: after a nomination the node's record of the pod carries the task's status and GPU groups
 //@   ensures [nodeAgreesWithTask] updateTaskIfExistsOnNode && result == nil ==> nodeAgrees(s.ssn.ClusterInfo.Nodes[hostname], task)
 //@   ensures [failsOnUnknownJobOrNode] !old(task.Job in s.ssn.ClusterInfo.PodGroupInfos) || !old(hostname in s.ssn.ClusterInfo.Nodes) ==> result != nil && s.operations == old(s.operations) && task.Status == old(task.Status) && task.NodeName == old(task.NodeName)
